@@ -86,3 +86,25 @@ def c20_cases():
     return [Case("kf4xpkg", f4_cross_package_contract(), "corpus"), Case("kf4same", f4_same_package_control(), "corpus"),
             Case("kf21lit", f21_literal_arg(), "corpus"), Case("kf23loop", f23_loop_overwrite(), "corpus"),
             Case("kf3opq", f3_opaque_nil(), "corpus")]
+
+
+def f26_check_inside_loop():
+    """x0, e50 = F1(); for opaque() { if e50 == nil { x0.V } } with a convention-respecting F1: every path to the
+    dereference has passed the check, yet NilAway reports `lacking guarding` (the check is in a loop, the call before it)"""
+    f0 = dict(nparams=0, pkg=0, method=False, ltypes={50: "E"}, ptypes=[], rtype="T", impl=None, err=False,
+              body=M.seq([("call2", L(0), L(50), 1, [], 1),
+                          ("while", ("opaque",), ("if", ("not", ("nonnil", L(50))), ("deref", 1, L(0)), ("skip",)))]))
+    f1 = dict(nparams=0, pkg=0, method=False, ltypes={}, ptypes=[], rtype="T", impl=None, err=True,
+              body=M.seq([("if", ("opaque",), ("return2", "nil", "new"), ("skip",)), ("return2", "new", "nil")]))
+    return dict(funcs=[f0, f1], ginit=[], gpkg=[], npkgs=1)
+
+
+def f26_control():
+    """the same check and use without the loop: clean"""
+    p = f26_check_inside_loop()
+    p["funcs"][0]["body"] = M.seq([("call2", L(0), L(50), 1, [], 1), ("if", ("not", ("nonnil", L(50))), ("deref", 1, L(0)), ("skip",))])
+    return p
+
+
+def c08_cases():
+    return [Case("kf26loop", f26_check_inside_loop(), "corpus"), Case("kf26ctl", f26_control(), "corpus")]
